@@ -41,11 +41,36 @@ def plan(tier, seed):
         specs.append({"stratum": f"family-{fam}", "family": fam, "n": per_f, "k": 0, "clean": True})
     specs.append({"stratum": "family-mset-nodup", "family": "mset", "n": per_f, "k": 0, "clean": True, "nodup": True})
     specs.append({"stratum": "family-mset-dup", "family": "mset", "n": per_f, "k": 0, "case_timeout": 10})
+    for k in range(2 if q else 4):
+        specs.append({"stratum": "plist-and-fixed-key-mappings-with-renamed-keys", "n": 250 if q else 4000, "k": k, "clean": True,
+                      "renamed": True})
     return specs
+
+
+def _no_null(o):
+    if isinstance(o, dict):
+        return {k: _no_null(v) for k, v in o.items()}
+    if isinstance(o, list):
+        return [_no_null(v) for v in o]
+    return "nil" if o is None else o
 
 
 def gen_cases(spec, ctx):
     from gv.props import c01
+    if spec.get("renamed"):
+        # edit collections (the plist wrapper, mappings under strategy none) around mappings whose keys were renamed while their
+        # values changed and whose unmatched sides differ in size: the collection's total depends on nested edits that other
+        # parties (the matcher, a renderer) refine
+        r = ctx.rng
+        for _ in range(spec["n"]):
+            a, b = gen.dict_pair_for_matching(r)
+            if r.random() < 0.5:
+                a, b = {"root": a, "v": 2}, {"root": b, "v": 2}
+            fam = r.choice(["plist", "plist", "json"])
+            if fam == "plist":
+                a, b = _no_null(a), _no_null(b)       # (plists cannot hold null)
+            yield {"family": fam, "a": a, "b": b, "ds": r.choice(gen.DS) if fam == "plist" else "none", "le": r.choice(gen.LE)}
+        return
     yield from c01.gen_cases(spec, ctx)
 
 
